@@ -84,6 +84,7 @@ struct RuntimeFunctionIndices {
     math_ceil: u32,
     math_atan2: u32,
     math_pow: u32,
+    math_fmod: u32,
     math_log: u32,
     math_min: u32,
     math_max: u32,
@@ -607,7 +608,7 @@ impl WasmGenerator {
         fn_idx
     }
 
-    /// Setup math function imports (sin/cos/tan/sinh/cosh/tanh/asin/acos/atan/round/floor/ceil/atan2/pow/log/min/max)
+    /// Setup math function imports (sin/cos/tan/sinh/cosh/tanh/asin/acos/atan/round/floor/ceil/atan2/pow/fmod/log/min/max)
     fn setup_math_imports(&mut self) {
         // Type: (f64) -> f64
         let type_idx_f64_f64 = self.type_section.len();
@@ -635,6 +636,7 @@ impl WasmGenerator {
             .function(vec![ValType::F64, ValType::F64], vec![ValType::F64]);
         self.rt.math_atan2 = self.add_import_from("math", "atan2", type_idx_f64_f64_f64);
         self.rt.math_pow = self.add_import_from("math", "pow", type_idx_f64_f64_f64);
+        self.rt.math_fmod = self.add_import_from("math", "fmod", type_idx_f64_f64_f64);
         self.rt.math_min = self.add_import_from("math", "min", type_idx_f64_f64_f64);
         self.rt.math_max = self.add_import_from("math", "max", type_idx_f64_f64_f64);
     }
@@ -2390,15 +2392,11 @@ impl WasmGenerator {
                 func.instruction(&W::Call(self.rt.math_pow));
             }
             I::ModF(a, b) => {
-                // WASM has no native f64 remainder; compute a - trunc(a/b) * b
-                self.emit_value_load_typed(a, ValType::F64, func);
+                // WASM has no f64 remainder instruction, and `a - trunc(a/b) * b` is not the
+                // remainder when `a/b` is inexact. Call the host's exact fmod (the VM's `%`).
                 self.emit_value_load_typed(a, ValType::F64, func);
                 self.emit_value_load_typed(b, ValType::F64, func);
-                func.instruction(&W::F64Div);
-                func.instruction(&W::F64Trunc);
-                self.emit_value_load_typed(b, ValType::F64, func);
-                func.instruction(&W::F64Mul);
-                func.instruction(&W::F64Sub);
+                func.instruction(&W::Call(self.rt.math_fmod));
             }
 
             // Integer arithmetic operations
